@@ -1,5 +1,7 @@
-(* GraphIOLabels.v -- cnfgen's own step after the networkx gml/dot readers: sort the node labels,
-   relabel 1..n, from_networkx.  Decimal strings (dot) sort lexicographically: defect D9. *)
+(* GraphIOLabels.v -- cnfgen's own step after the networkx gml/dot readers: (dot: turn the labels into integers
+   when they all are integers,) sort the node labels, relabel 1..n, from_networkx.
+   Current code: identity for every size (dot_labels_identity).  As found, decimal strings were sorted
+   lexicographically: defect D9 (dot_labels_refuted, dot_labels_partial on the *_as_found functions). *)
 From Coq Require Import ZArith List Bool Lia ZifyBool Ascii.
 From Cnfgen Require Import GText GraphIO GTextFacts GraphIOFacts GraphIOMatrix GraphIODimacs.
 Import ListNotations.
